@@ -265,6 +265,8 @@ func (un *universe) capabilities() []cadence.Value {
 		cadence.NewCapability(3, a1, ref(un.auths[1], p.Node)),
 		cadence.NewCapability(4, a1, ref(un.auths[0], cadence.NewVariableSizedArrayType(p.I))),
 		cadence.NewCapability(5, a1, cadence.IntType),
+		cadence.NewCapability(6, a1, ref(un.auths[8], p.S)),
+		cadence.NewCapability(7, a1, ref(un.auths[2], p.S)),
 	}
 }
 
